@@ -160,6 +160,8 @@ Call(e) ==
                                   /\ Chk(<<"payout before unlock start + duration", e.id>>, e.id \in Ids => Matured(e.id))
                                   /\ SFUnlock(e.id)
            [] e.a = "fund"     -> FundSupply(SupplyOf(e))
+           \* a validator jailed without slash, or released: nothing the property speaks of moves
+           [] e.a \in {"jail", "unjail"} -> SFRefused
 
 TStep ==
     /\ Ev.e = "op"
